@@ -52,6 +52,60 @@ pub enum Variant {
     /// mixed configuration, i.e. challenger rows on the narrow table, arity-4 Merkle rows on
     /// the wide table, recompose rows
     Verifier,
+    /// cross-table MMCS index: a plain permutation row of the WIDE table exposes an output
+    /// that a Merkle-path row of the NARROW table takes as `mmcs_index_sum` (conditional read
+    /// counted by the prover-side Poseidon2 preprocessor into the other table's `out_ctl`)
+    CrossWideCreates,
+    /// the other direction: NARROW row creates, Merkle-path row of the WIDE (arity-4) table reads
+    CrossNarrowCreates,
+}
+
+/// Creator row in table `creator`, then a two-row Merkle chain in table `reader` whose last row
+/// exposes `mmcs_index_sum` = first exposed output of the creator row, then a row starting a new
+/// chain in `reader` (keeps the conditional read of the chain's last row live whatever the
+/// padding is).
+fn cross_rows<T: Field>(b: &mut CircuitBuilder<T>, creator: Poseidon2Config, reader: Poseidon2Config, acc: &mut Vec<ExprId>) -> Result<(), String> {
+    let (a0, a1) = perm_row(b, creator, true)?;
+    let s = b.add(a0, a1);
+    acc.push(s);
+    let bit0 = b.alloc_const(T::ZERO, "mmcs_bit0");
+    let bit1 = b.alloc_const(T::ONE, "mmcs_bit1");
+    let arity4 = reader.is_arity4_shape();
+    let inputs: Vec<_> = (0..reader.width_ext()).map(|_| Some(b.public_input())).collect();
+    b.add_poseidon2_perm(&Poseidon2PermCall {
+        config: reader,
+        new_start: true,
+        merkle_path: true,
+        mmcs_bit: Some(bit0),
+        mmcs_bit2: arity4.then_some(bit1),
+        inputs,
+        out_ctl: vec![false; reader.rate_ext()],
+        return_all_outputs: false,
+        mmcs_index_sum: None,
+    })
+    .map_err(|e| format!("merkle row0 {reader:?}: {e:?}"))?;
+    let mut out_ctl = vec![false; reader.rate_ext()];
+    out_ctl[0] = true;
+    out_ctl[1] = true;
+    let (_, outs) = b
+        .add_poseidon2_perm(&Poseidon2PermCall {
+            config: reader,
+            new_start: false,
+            merkle_path: true,
+            mmcs_bit: Some(bit1),
+            mmcs_bit2: arity4.then_some(bit0),
+            inputs: vec![None; reader.width_ext()],
+            out_ctl,
+            return_all_outputs: false,
+            mmcs_index_sum: Some(a0),
+        })
+        .map_err(|e| format!("merkle row1 {reader:?}: {e:?}"))?;
+    let s = b.add(outs[0].ok_or("no out0")?, outs[1].ok_or("no out1")?);
+    acc.push(s);
+    let (c0, c1) = perm_row(b, reader, true)?;
+    let s = b.add(c0, c1);
+    acc.push(s);
+    Ok(())
 }
 
 /// One permutation row of table `cfg` fed by fresh public inputs; returns two exposed outputs.
@@ -132,6 +186,14 @@ macro_rules! backend_components {
                         Variant::MixedNarrowFirst => &[false, true],
                         Variant::MixedWideFirst => &[true, false],
                         Variant::Narrow => &[false],
+                        Variant::CrossWideCreates => {
+                            cross_rows(&mut b, WIDE_CONFIG, CHALLENGER_CONFIG, &mut acc)?;
+                            &[]
+                        }
+                        Variant::CrossNarrowCreates => {
+                            cross_rows(&mut b, CHALLENGER_CONFIG, WIDE_CONFIG, &mut acc)?;
+                            &[]
+                        }
                         Variant::Verifier => unreachable!(),
                     };
                     for &is_wide in order {
@@ -244,6 +306,8 @@ pub fn library() -> Vec<(String, LibFn)> {
         v.push((format!("lib:backend:{name}:mixed,wide-rows-first"), Box::new(move || mixed(Variant::MixedWideFirst))));
         v.push((format!("lib:backend:{name}:narrow-only"), Box::new(move || narrow(Variant::Narrow))));
         v.push((format!("lib:backend:{name}:next-layer-verifier-circuit"), Box::new(move || mixed(Variant::Verifier))));
+        v.push((format!("lib:backend:{name}:cross-table-mmcs-index,wide-creates,narrow-merkle-row-reads"), Box::new(move || mixed(Variant::CrossWideCreates))));
+        v.push((format!("lib:backend:{name}:cross-table-mmcs-index,narrow-creates,wide-merkle-row-reads"), Box::new(move || mixed(Variant::CrossNarrowCreates))));
     }
     v
 }
